@@ -281,18 +281,35 @@ def constFuel (E : Env) : Nat := (E.files.map (·.consts.length)).sum + 1
 def resTag {α} : Res α → String
   | .ok _ => "accept" | .err => "reject" | .panic => "panic"
 
-/-- first non-ok outcome over all constants and field defaults of the unit, in thriftgo's order per file:
-    struct fields first, then constants -/
+/-- parser.Thrift.DepthFirstSearch: includes first (all of them, used or not), every file once -/
+partial def dfsOrder (E : Env) (f : Nat) (seen : List Nat) : List Nat × List Nat :=
+  if seen.contains f then ([], seen) else
+  match E.file? f with
+  | none => ([], seen)
+  | some fe =>
+    let (out, seen) := fe.includes.foldl (fun (acc : List Nat × List Nat) (inc : Nat × Bool) =>
+      let (o, s) := dfsOrder E inc.1 acc.2
+      (acc.1 ++ o, s)) ([], f :: seen)
+    (out ++ [f], seen)
+
+/-- thriftgo's verdict on the unit: files in depth-first order; per file the defaults of struct, union and
+    exception fields, then the constants (Scope.resolveTypesAndValues); the first initialiser that does not
+    resolve decides: an error ends the process (`reject`), a Go panic is recovered and reported (`panic`) -/
 def unitVerdict (E : Env) : String :=
-  let perFile := (E.files.zipIdx).map fun (fe, i) =>
-    let ds := fe.structs.flatMap fun st => st.fields.filterMap fun f =>
-      match f.dflt with
-      | some d => some (resTag (resolveConst E i i f.ty d))
-      | none => none
-    let cs := fe.consts.map fun c => resTag (resolveConst E i i c.ty c.val)
-    ds ++ cs
-  let all := perFile.flatten
-  if all.contains "panic" then "panic" else if all.contains "reject" then "reject" else "accept"
+  let order := (dfsOrder E 0 []).1
+  let all := order.flatMap fun i =>
+    match E.file? i with
+    | none => []
+    | some fe =>
+      let ds := fe.structs.flatMap fun st => st.fields.filterMap fun f =>
+        match f.dflt with
+        | some d => some (resTag (resolveConst E i i f.ty d))
+        | none => none
+      let cs := fe.consts.map fun c => resTag (resolveConst E i i c.ty c.val)
+      ds ++ cs
+  match all.find? (· != "accept") with
+  | some v => v
+  | none => "accept"
 
 def withDefaults (x : Unit) (P : Prog) (sidx : Nat) (sd : StructDef) : StructDef :=
   match x.sidx.find? (·.1 == sidx) with
